@@ -155,6 +155,8 @@ class TokenStore(Generic[_T]):
         for token in tokens:
             if token.store_handle:
                 raise ValueError('Token already in a store.')
+        if len({id(token) for token in tokens}) != len(tokens):
+            raise ValueError('The same token is listed twice.')
         store = cls()
         if tokens:
             store._blocks[:] = list(_build_blocks(store, 0, tokens))
